@@ -2214,12 +2214,7 @@ func (e *lexEnv) replay(ctx *Ctx) {
 			if f[0] == "lex.jsonw" {
 				c = lexJSON
 			}
-			inScope := lexTagsInRange(x.erase())
-			x.walk(func(n *lexItem) {
-				if n.kind == tree.KDate && (n.i < -62135596800 || n.i > 253402300799) {
-					inScope = false
-				}
-			})
+			inScope := lexInScope(x)
 			if doc := e.writerCase(ctx, c, x, "replay", true, inScope); doc != nil {
 				h, ok := lexHintsOf(x)
 				if !ok {
@@ -2253,6 +2248,10 @@ func (e *lexEnv) replay(ctx *Ctx) {
 				}
 				jv.serialize(&buf)
 				e.readerCase(ctx, lexJSON, buf.Bytes(), h, "replay")
+			}
+		case "lex.scope":
+			if x, err := lexParseItem(strings.TrimPrefix(l, "lex.scope ")); err == nil {
+				e.scopeCase(ctx, x, lexInScope(x))
 			}
 		case "#lex.zone":
 			g := strings.SplitN(l, " ", 5)
@@ -2289,6 +2288,51 @@ func (e *lexEnv) replay(ctx *Ctx) {
 	}
 }
 
+// lexInScope: the hypotheses of C04 on a tree as the harness computes them (tags of 1..2^24-1, dates in years 1..9999;
+// the value ranges hold by construction of lexItem values).
+func lexInScope(x *lexItem) bool {
+	ok := lexTagsInRange(x.erase())
+	x.walk(func(n *lexItem) {
+		switch n.kind {
+		case tree.KDate:
+			if n.i < -62135596800 || n.i > 253402300799 {
+				ok = false
+			}
+		case tree.KInt:
+			if n.i < math.MinInt32 || n.i > math.MaxInt32 {
+				ok = false
+			}
+		case tree.KEnum, tree.KInterval:
+			if n.i < 0 || n.i > math.MaxUint32 {
+				ok = false
+			}
+		}
+	})
+	return ok
+}
+
+// scopeCase ties what the engine treats as "in the scope of C04" (trees it demands a round trip of) to the domain of
+// the Lean theorems xml_roundtrip_any / json_roundtrip_any (Lex.inScope): the two must agree on every tree.
+func (e *lexEnv) scopeCase(ctx *Ctx, x *lexItem, inScope bool) {
+	line := "lex.scope " + x.render()
+	if e.seen[line] {
+		return
+	}
+	e.seen[line] = true
+	ctx.current = line
+	if inScope != lexInScope(x) {
+		lexFail(ctx, fmt.Sprintf("the generator's in-scope flag (%v) is not what the tree says at %s", inScope, line))
+	}
+	ans := "ok 0"
+	if inScope {
+		ans = "ok 1"
+		ctx.Res.Count("scope.in-theorem-domain")
+	} else {
+		ctx.Res.Count("scope.outside-theorem-domain")
+	}
+	ctx.Add(line, ans, false, "C04")
+}
+
 // oneTree: writer lines for both encodings, then the documents as reader input (typed hints and generic),
 // then (mutate) their lexical mutations.
 func (e *lexEnv) oneTree(ctx *Ctx, t lexTree, origin string, mutate bool) {
@@ -2302,6 +2346,7 @@ func (e *lexEnv) oneTree(ctx *Ctx, t lexTree, origin string, mutate bool) {
 	if !consistent {
 		h = ph
 	}
+	e.scopeCase(ctx, t.x, t.inScope)
 	for _, c := range codecs {
 		doc := e.writerCase(ctx, c, t.x, origin, t.boundary, t.inScope)
 		if doc == nil {
